@@ -242,6 +242,14 @@ func chainProgram(variant int) map[string]string {
 	files["/v/m.thrift"] = "include \"./c.thrift\"\nservice SM extends c.SC { void mid() }\n"
 	files["/v/a.thrift"] = "include \"./m.thrift\"\nservice SA extends m.SM { void leaf() }\nservice SA2 extends SA { void leaf2() }\n"
 	files["/v/b.thrift"] = "include \"./c.thrift\"\nstruct BItem { 1: optional c.CItem c }\nservice SB extends c.SC { void other() }\n"
+	if variant >= 3 {
+		// services of one name in sibling files (and in the root): a service is identified by its file and its name
+		files["/v/a.thrift"] += "service Health { bool ping() }\nservice Probe extends Health { void probe() }\nservice Lone { void fromA() }\n"
+		files["/v/b.thrift"] += "service Health { string status() }\nservice Probe extends Health { void look() }\nservice Lone { void fromB() }\n"
+		files["/v/c.thrift"] += "service Health { i32 code() }\n"
+		files["/v/root.thrift"] = "include \"./a.thrift\"\ninclude \"./b.thrift\"\nservice Health extends b.Health { void own() }\nservice Top extends a.Probe { void top() }\n"
+		return files
+	}
 	switch variant % 3 {
 	case 0:
 		files["/v/root.thrift"] = "include \"./a.thrift\"\ninclude \"./b.thrift\"\nstruct Use { 1: optional b.BItem i }\n"
@@ -374,7 +382,7 @@ func cmdC10(args []string) error {
 	}
 	// inheritance chains across files
 	if *big > 0 {
-		for v := 0; v < 3; v++ {
+		for v := 0; v < 4; v++ {
 			files := chainProgram(v)
 			for _, o := range optSets[:2] {
 				for i := 0; i < 3**runs; i++ {
